@@ -23,7 +23,7 @@ Record pops (T : Type) : Type := mk_pops {
 Arguments pzero {T}. Arguments pone {T}. Arguments pdeg {T}. Arguments pdiv {T}. Arguments pmaxpy {T}.
 
 Section Generic.
-  Context {T : Type} (O : pops T).
+  Context {T : Type} (Ops : pops T).
 
   (* Degree(a) clamps negative values to DEGPOLYZERO = -1 *)
   Definition clampdeg (d : Z) : Z := if d <? 0 then -1 else d.
@@ -33,16 +33,16 @@ Section Generic.
     match fuel with
     | O => None
     | S n =>
-      let Q := pdiv O N U in
-      let N1 := pmaxpy O N Q U in           (* divmodin(Q,N,U) *)
-      let D01 := pmaxpy O D0 Q D in         (* maxpyin(D0,Q,D) *)
-      let degN := pdeg O N1 in
+      let Q := pdiv Ops N U in
+      let N1 := pmaxpy Ops N Q U in           (* divmodin(Q,N,U) *)
+      let D01 := pmaxpy Ops D0 Q D in         (* maxpyin(D0,Q,D) *)
+      let degN := pdeg Ops N1 in
       if (degN <=? dk) || (degN <? 0) then Some (degN <=? dk, N1, D01)   (* assign(D,D0); break *)
       else
-        let Q2 := pdiv O U N1 in
-        let U1 := pmaxpy O U Q2 N1 in       (* divmodin(Q,U,N) *)
-        let D1 := pmaxpy O D Q2 D01 in      (* maxpyin(D,Q,D0) *)
-        let degU := pdeg O U1 in
+        let Q2 := pdiv Ops U N1 in
+        let U1 := pmaxpy Ops U Q2 N1 in       (* divmodin(Q,U,N) *)
+        let D1 := pmaxpy Ops D Q2 D01 in      (* maxpyin(D,Q,D0) *)
+        let degU := pdeg Ops U1 in
         if degU <=? dk then Some (true, U1, D1)                           (* assign(N,U); break *)
         else if degU >=? 0 then ploop n N1 U1 D01 D1 dk
         else Some (false, N1, D1)
@@ -51,13 +51,13 @@ Section Generic.
   (* lines 18-87 *)
   Definition pratrecon_fuel (fuel : nat) (P M : T) (dk0 : Z) : option (bool * T * T) :=
     let dk := clampdeg dk0 in
-    let degU := pdeg O P in
-    let degV := pdeg O M in
-    if (degU <? dk) || (degV =? 0) then Some (true, P, pone O)
-    else if (degV <? 0) || (degU =? 0) then Some (false, pone O, pone O)
-    else ploop fuel M P (pzero O) (pone O) dk.
+    let degU := pdeg Ops P in
+    let degV := pdeg Ops M in
+    if (degU <? dk) || (degV =? 0) then Some (true, P, pone Ops)
+    else if (degV <? 0) || (degU =? 0) then Some (false, pone Ops, pone Ops)
+    else ploop fuel M P (pzero Ops) (pone Ops) dk.
 
-  Definition pfuel (P M : T) : nat := Z.to_nat (pdeg O P + pdeg O M + 4).
+  Definition pfuel (P M : T) : nat := Z.to_nat (pdeg Ops P + pdeg Ops M + 4).
   Definition pratrecon (P M : T) (dk : Z) : option (bool * T * T) := pratrecon_fuel (pfuel P M) P M dk.
 End Generic.
 
